@@ -492,8 +492,8 @@ func pureCmd(args []string) {
 		b, err := os.ReadFile(*opsFile)
 		must(err)
 		for _, l := range strings.Split(string(b), "\n") {
-			if strings.TrimSpace(l) != "" {
-				ops = append(ops, strings.TrimSpace(l))
+			if t := strings.TrimSpace(l); t != "" && !strings.HasPrefix(t, "#") {
+				ops = append(ops, t)
 			}
 		}
 		base = filepath.Join(*dir, "pure-replay")
